@@ -902,6 +902,62 @@ class Enumerator:
             return const_truth(d)
         return None
 
+    def _single_item(self, it, st, depth=3):
+        """When the iterable is a collection built on this path that holds
+        exactly one known item (one append, nothing else done to it) - also
+        seen through list()/sorted()/tuple() or a filter-free comprehension
+        over such a collection - the item; else None."""
+        if depth <= 0:
+            return None
+        e = it
+        while isinstance(e, ast.Call) and isinstance(e.func, ast.Name) and \
+                e.func.id in ('list', 'tuple', 'sorted', 'iter',
+                              'reversed') and len(e.args) == 1 and \
+                not e.keywords:
+            e = e.args[0]
+        if isinstance(e, ast.Name) and e.id.startswith('SYM_m'):
+            d = self.defs.get(e.id)
+            if isinstance(d, (ast.List, ast.Tuple, ast.Set)) and not d.elts \
+                    or e.id in self.__dict__.get('_comp_accs', ()):
+                items = []
+                for ev in st.events:
+                    if ev.kind == 'call' and isinstance(
+                            ev.node.func, ast.Attribute) and isinstance(
+                                ev.node.func.value, ast.Name) and \
+                            ev.node.func.value.id == e.id:
+                        if ev.node.func.attr in ('append', 'add') and len(
+                                ev.node.args) == 1:
+                            items.append(ev.node.args[0])
+                        else:
+                            return None
+                    elif ev.kind in ('maycall', 'store', 'aug', 'del') and \
+                            any(isinstance(n, ast.Name) and n.id == e.id
+                                for n in ast.walk(ev.node)):
+                        return None
+                if len(items) == 1:
+                    return items[0]
+                return None
+        comp = None
+        if isinstance(e, ast.Name) and isinstance(self.defs.get(e.id), (
+                ast.ListComp, ast.GeneratorExp, ast.SetComp)):
+            comp = self.defs[e.id]
+        elif isinstance(e, (ast.ListComp, ast.GeneratorExp, ast.SetComp)):
+            comp = e
+        if comp is not None and len(comp.generators) == 1 and \
+                not comp.generators[0].ifs and e.id not in self.__dict__.get(
+                    '_comp_accs', ()) if isinstance(e, ast.Name) else (
+                        comp is not None and len(comp.generators) == 1
+                        and not comp.generators[0].ifs):
+            g = comp.generators[0]
+            inner = self._single_item(g.iter, st, depth - 1)
+            if inner is not None and not has_call(comp.elt):
+                env = {}
+                tmp = State(env=env)
+                self._assign_target(g.target, inner, tmp, 0)
+                if not tmp.events:
+                    return subst(comp.elt, env)
+        return None
+
     def _iter_truth(self, it, st):
         """Emptiness of an iterable known from its spelling: a literal, or
         a symbol naming a literal display and what was done to it."""
@@ -938,7 +994,8 @@ class Enumerator:
             s1 = s0.fork()
             s1.conds.append(Cond(it, True, line, 'loop', self.frame))
             s1.facts[itk] = True
-            elem = self.fresh(('elem', it), 'e')
+            one = self._single_item(it, s1)
+            elem = one if one is not None else self.fresh(('elem', it), 'e')
             bound = [n.id for n in ast.walk(g.target)
                      if isinstance(n, ast.Name)]
             saved = {b: s1.env.get(b) for b in bound}
@@ -1771,6 +1828,32 @@ class Enumerator:
                 else:
                     yield s, ('return', v, line, self.frame)
             return
+        if isinstance(node, ast.Raise) and node.exc is not None and (
+                self.inline is not None or self.closures):
+            x0 = subst(node.exc, st.env)
+            tgt = self._inline_target(x0) if isinstance(x0, ast.Call) \
+                else None
+            if tgt is not None and tgt.name != '__init__' and len(
+                    self._stack) <= self.max_depth:
+                # raise helper(...): what the helper hands back is raised
+                for s, rv, rs in self._inline(x0, tgt, st, handlers):
+                    if rs is not None:
+                        yield s, rs
+                    else:
+                        yield s, ('raise', rv, line, self.frame)
+                return
+            if isinstance(x0, ast.IfExp):
+                for s, t in self.branch(x0.test, st, line, True):
+                    if isinstance(t, tuple):
+                        yield s, t
+                        continue
+                    sub = ast.Raise(exc=x0.body if t else x0.orelse,
+                                    cause=None)
+                    ast.copy_location(sub, node)
+                    s2 = s.fork()
+                    s2.env = dict(s.env)
+                    yield from self.stmt(sub, s2, handlers)
+                return
         if isinstance(node, ast.Raise):
             s = st.fork()
             exc = subst(node.exc, s.env) if node.exc is not None else None
@@ -1993,7 +2076,8 @@ class Enumerator:
             s1 = s0.fork()
             s1.conds.append(Cond(it, True, line, 'loop', self.frame))
             s1.facts[itk] = True
-            elem = self.fresh(('elem', it), 'e')
+            one = self._single_item(it, s1)
+            elem = one if one is not None else self.fresh(('elem', it), 'e')
             self._assign_target(node.target, elem, s1, line)
             for s, status in self.block(node.body, s1, handlers):
                 if status[0] in ('next', 'continue'):
